@@ -45,8 +45,13 @@ func init() {
 		Rule: "case = one history of real endorse runs (endorse.VirtualFirmware: measure a 4 KiB image, sign, commit) against one store: in-memory VCS double with workspaces and atomic commit (mem-tx), the same double writing through (mem-wt), testing/nonprod/localnonvcs on a temp dir (local), or both at once via Context.VCSs (multi). " +
 			"Cases 0 and 1 are closures: breadth-first search over abstract store states (ordered (path,image) manifest entries + which image each *.binarypb signs) for the pool 3 images x 3 candidate names x overwrite{on,off} plus 3 snapshot-mode runs, every action run from every reached state until no new state appears (mem-tx and local; thorough adds 4 images x 3 names on mem-tx and 3 images x 4 names on mem-wt). " +
 			"The other cases are random histories of 8..40 runs over pools of 2..6 images and 2..6 candidate names (plain, default, with a sub-directory, with spaces/non-ASCII), 1..2 output directories, overwrite probability 0.25/0.5/0.8, 10% snapshot-mode runs, scripted retriable commit conflicts with 0..2 retries (mem-tx) and failed endorsement-file writes (mem-wt); two thirds of the conflicts have a cause: another process's complete endorse run (own Context, candidate and image from the same pools, overwrite 0.7) lands in the store inside the failing submit, between the attempt and its retry, and mem-tx-race histories are a contended store where half of the runs meet such a conflict (the store then saw two sequential runs: the one that landed, then the retried one; each is judged as such); three histories in five are made by a caller that keeps ONE endorse.Context for all runs and reassigns its fields (struct: new context.Context per run; ctx: one context.Context and output.Options changed in place; ctx+buf: also one image buffer refilled in place), the others build a Context per run like the CLI; run timestamps are not monotonic (newer than, older than, or equal to earlier runs'; every action of the mem-tx closures also has an older-timestamp variant); local-links histories turn not-yet-existing candidate paths into symlinks to an existing endorsement file, a missing target or a directory between runs and then endorse under those names without overwrite. " +
+			"Audit cases (numbered after all others, audit.go): interleaved: 2..4 independent histories of 8..16 runs, each on its own store behind a wrapper that sees every call the library makes on the version-control abstraction, in flight at the same time in one process; in one half of the batches exactly one goroutine runs at a time and a PRNG passes the turn before and after every such call (the same interleaving in every execution), in the other half the goroutines run in parallel and meet before and after every such call, so that the code between two calls runs at the same moment on several cores; every store is judged after each of its own runs. " +
+			"mixed-callers: one store written in turn by two kept endorse.Contexts and by fresh ones (for localnonvcs half of these through a new T on the same root), one run in eight a dry run (Context.DryRun toggled on kept Contexts), a third of the fresh runs without overwrite made with a context that carries no output.Options at all. " +
+			"stores-differ: two stores of any kinds; the first third of the runs goes to store 0 only, later runs are addressed (Context.VCSs, reassigned per run also on a kept Context) to both in the usual or the reversed order or to one of them, so that the stores hold different files; every store is judged after every run, the clauses about the latest run only in the stores the run was addressed to and only when the whole run succeeded. " +
+			"faults: one call of the version-control abstraction fails once or twice during two runs in five, permanently or with an error the store calls retriable (0..2 retries): opening the workspace, reading the candidate file (the existence check), reading the manifest, writing the endorsement file (nothing written), and on the transactional double also the manifest write, the chmod and the commit. " +
+			"store-switch (observed only): a kept Context whose VCS field is pointed at one of two stores before each run. " +
 			"Oracle after every run, over the files visible through the version-control abstraction: every manifest parses; no path and no digest twice; every entry's path (relative to the manifest) names a file that decodes as a VMLaunchEndorsement whose signed golden measurement carries the entry's digest; after a successful manifest-mode run the image's SHA-384 maps to <candidate>.binarypb and that file signs this digest with this run's timestamp; after a run without overwrite every *.binarypb that existed before is byte-identical. " +
-			"non-trivial = the run met a manifest: distinct (store kind, relation of the request to the manifest before the run {fresh, path-held, digest-held, same-entry, path-and-digest-in-different-entries}, target file existed, overwrite, outcome) cells, plus (landed run's relation and outcome, retried run's relation, overwrite, outcome) for runs that raced, (caller mode, image differs from the Context's first, relation, outcome) for runs from a reused Context, plus every distinct abstract state the closures reached",
+			"non-trivial = the run met a manifest: distinct (store kind, relation of the request to the manifest before the run {fresh, path-held, digest-held, same-entry, path-and-digest-in-different-entries}, target file existed, overwrite, outcome) cells, plus (landed run's relation and outcome, retried run's relation, overwrite, outcome) for runs that raced, (caller mode, image differs from the Context's first, relation, outcome) for runs from a reused Context, plus every distinct abstract state the closures reached; audit cases add the store kind's tag (other histories in flight / another history's calls inside this run's commit phase; mixed callers; one of two stores, two stores in the same or in different states; the faulted call) to the run cells, plus (store, caller, dry or real, who changed the store last, result), (VCSs kinds, file exists in first/second store, overwrite) for runs addressed to two different stores and (store, faulted call, permanent/retriable, file existed, overwrite, retries, result) for faults that fired",
 		Assumptions: []string{
 			"entry paths are resolved relative to the directory of the manifest (the repository stores the basename)",
 			"the closure abstracts from create times, signature bytes and snapshot-mode files; it is exhaustive for its pool only if endorse's behaviour does not depend on those",
@@ -57,6 +62,11 @@ func init() {
 			"injected faults are limited to commit conflicts on the transactional double and to the endorsement-file write on the write-through double (nothing written); a failed manifest write on a non-transactional store is outside the property",
 			"a run WITH overwrite whose candidate path is a symlink is the same two-names-one-file case as ./a and is not generated; a dangling link's target name is outside the candidate pool",
 			"candidate names that are different spellings of one file (a, ./a, x/../a) are exercised for the record only and never judged",
+			"histories on different stores in one process are independent: each must keep its own manifest faithful whatever the other does at the same time; runs on ONE store are never made at the same time (a read-modify-write of the manifest without a lock loses updates by design; the transactional double's conflicts model that case)",
+			"a dry run (Context.DryRun) and a run that was not addressed to a store are runs of the history that the store's manifest need not index; the other clauses are judged after them as after any run",
+			"a context without output.Options gives no overwrite permission",
+			"a fault of a single call is injected before the call reaches the store (nothing of that call happens); on the stores that write through only calls before the first write of a run are failed",
+			"a run is addressed to the stores the caller put into Context.VCSs (or Context.VCS of a fresh Context); a kept Context whose VCS field alone is reassigned still endorses into the store of its first run (VirtualFirmware keeps it in VCSs) — recorded under store-switch-observation, not judged",
 			"signing uses the repository's development keys (memkm/memca test-only instances); verdicts do not depend on key values",
 		},
 		ShardsQuick: 8, ShardsThor: 16, TimeoutS: 600, TimeoutThor: 3000, Run: run,
@@ -167,8 +177,8 @@ type action struct {
 	snapDir   string
 	imageName string
 	retries   int
-	conflicts int  // scripted retriable commit failures (mem-tx)
-	failWrite bool // scripted endorsement-file write failure (mem-wt)
+	conflicts int    // scripted retriable commit failures (mem-tx)
+	failWrite bool   // scripted endorsement-file write failure (mem-wt)
 	tsClass   string // how the run's timestamp relates to earlier runs: "", older, equal
 	link      string // local store: the candidate path is a symlink to: file, missing, dir
 	// concurrent, if set, is another complete endorse run (own Context, as from another process)
@@ -255,11 +265,11 @@ type env struct {
 	acceptedClass map[string]bool
 	refusals      int
 	keptFiles     int
-	oldMerges     int // accepted merges into an existing entry with a timestamp not newer than recorded ones
-	linkRefusals  int // runs without overwrite on a symlink to an existing endorsement
-	observeOnly   bool // alias histories: findings are counted, never reported as violations
-	raceRefresh   int  // retried runs that succeeded after a concurrent run refreshed a listed candidate
-	reusedChanged int  // successful runs from a reused Context whose image differs from that Context's first
+	oldMerges     int    // accepted merges into an existing entry with a timestamp not newer than recorded ones
+	linkRefusals  int    // runs without overwrite on a symlink to an existing endorsement
+	observeOnly   bool   // alias histories: findings are counted, never reported as violations
+	raceRefresh   int    // retried runs that succeeded after a concurrent run refreshed a listed candidate
+	reusedChanged int    // successful runs from a reused Context whose image differs from that Context's first
 	observeWhat   string // what an observe-only history is about (notes)
 	lastErr       error  // result of the latest run made by stepOn
 	light         bool   // runs are made from several goroutines: panics are recovered here, not by core.Guard
@@ -479,12 +489,15 @@ func (e *env) account(i int, gname string, w *world, s store, a action, ts time.
 				what = "alias"
 			}
 			c.Count(what+"-observation/"+f.rule, 1)
-			c.Note(what+" names (not judged): rule %s fired, e.g. after [%s]: %s", f.rule, strings.Join(append(append([]string(nil), hist...), a.String()), " ; "), f.detail)
+			if what == "alias" {
+				what = "alias names"
+			}
+			c.Note(what+" (not judged): rule %s fired, e.g. after [%s]: %s", f.rule, strings.Join(append(append([]string(nil), hist...), a.String()), " ; "), f.detail)
 			continue
 		}
 		wit := map[string]any{"store": s.Kind(), "history": append(append([]string(nil), hist...), a.String()), "run_error": fmt.Sprint(err),
 			"state_before": abstractKey(pre, e.names), "state_after": abstractKey(post, e.names)}
-		if a.ctxMode != "" {
+		if a.ctxMode != "" && a.who == "" {
 			wit["caller"] = "every run of this history is made from one long-lived endorse.Context (" + a.ctxMode + "), fields reassigned before each run"
 		}
 		if mb, ok := post[path.Join(a.outDir, manifestName)]; ok && len(mb) < 4000 {
@@ -497,7 +510,7 @@ func (e *env) account(i int, gname string, w *world, s store, a action, ts time.
 			wit["vcs_calls"] = tail(hs.hk.log, 32)
 		}
 		if a.who != "" {
-			wit["caller_of_this_run"] = a.who
+			wit["caller_of_this_run"] = a.who + " (the runs of this history are made in turn by fresh Contexts and by two kept ones, kept-A and kept-B, whose fields are reassigned before each of their runs)"
 		}
 		c.Violate(core.Violation{Kind: "oracle", Entry: entryPoint, Site: f.rule, Gen: gname, Case: i,
 			Detail: fmt.Sprintf("[%s, after run %d: %s] %s", s.Kind(), len(hist)+1, a.String(), f.detail), Witness: wit})
